@@ -296,7 +296,12 @@ pub fn run(rep: &mut Report) {
         let os = [TimeScale::TAI, TimeScale::UTC, TimeScale::GPST, TimeScale::ET];
         let no = od.len() as u64;
         let lp = &leap;
-        crate::engine::order_pairs(rep, "c16.order", no * 4 * 3, |i, out| {
+        let wd: [(i64, i128); 6] = [(days1900(1987, 10, 14), 43_200 * NS_S), (days1900(2087, 10, 14), 86_370 * NS_S), (days1900(2020, 6, 7), 86_364 * NS_S), (days1900(1987, 10, 14), 86_390 * NS_S), (days1900(2016, 12, 31), 86_399 * NS_S), (days1900(1972, 6, 30), 86_395 * NS_S)];
+        crate::engine::order_pairs(rep, "c16.order", no * 4 * 3 + 12, |i, out| {
+            if i >= no * 4 * 3 {
+                let j = (i - no * 4 * 3) as usize;
+                return j_weekday(wd[j % 6].0, wd[j % 6].1, [TimeScale::UTC, TimeScale::TAI][j / 6], lp, out);
+            }
             let (d, ts, k) = (od[(i % no) as usize], os[((i / no) % 4) as usize], i / (4 * no));
             match k {
                 0 => {
